@@ -88,6 +88,13 @@ class C04(FprCheck):
             self.count("derived-after-run")
             yield {"t": "derived", "ref": rng.choice(refs), "opts": MG.gen_opts(rng), "seed": rng.randrange(10 ** 6),
                    "edits": [rng.choice(["isotope", "charge", "element", "renumber", "removehs", "copy", "rwmol"]) for _ in range(rng.randint(2, 4))]}
+        for _ in range(10 if self.tier == "quick" else 120):
+            # two fingerprinter objects alive in one process, their work interleaved (serially - no threads needed): what the first
+            # one reports must not depend on what the second one did in between, also half-way through a run (iterator protocol)
+            self.count("two-fingerprinters-interleaved")
+            o = MG.gen_opts(rng)
+            yield {"t": "interleaved", "a": rng.choice(refs), "b": rng.choice(refs), "opts": o,
+                   "opts_b": rng.choice([o, dict(o, rdkit_invariants=not o["rdkit_invariants"]), MG.gen_opts(rng)]), "split": rng.choice([0, 1, 2])}
         for _ in range(1 if self.tier == "quick" else 6):
             # two fresh processes fingerprint the same molecules in different orders (process-global state - module-level tables,
             # class-level caches - would make the answer for a molecule depend on what the process met first)
@@ -185,8 +192,36 @@ class C04(FprCheck):
             if self._defaults() != defaults_before:
                 return {"key": "mutable-default-mutated", "what": "a mutable default argument changed: %s" % self._defaults()}
             return None
-        if case["t"] != "derived" and case["t"] != "hist":
+        if case["t"] not in ("derived", "hist", "interleaved"):
             return self._prop_rest(case)
+        if case["t"] == "interleaved":
+            qs = [{"level": -1, "bits": None, "mask": []}, {"level": 1, "bits": None, "mask": []}]
+            ma, mb = MG.load_ref(case["a"]), MG.load_ref(case["b"])
+            oa, ob = case["opts"], case["opts_b"]
+            if not (MG.in_domain(ma, oa) and MG.in_domain(mb, ob)):
+                return None
+            want = MG.run_impl(ma, ma.GetConformer(0), oa, qs)
+
+            def go():
+                f1, f2 = MG.make_fprinter(oa), MG.make_fprinter(ob)
+                f1.reset_mol()
+                f1.initialize_mol(ma)
+                f1.initialize_conformer(ma.GetConformer(0))
+                for _ in range(case["split"]):          # the first fingerprinter stops after `split` iterations ...
+                    try:
+                        next(f1)
+                    except StopIteration:
+                        break
+                f2.run(mb.GetConformer(0), mb)          # ... the second one does a whole run ...
+                for _ in f1:                            # ... and the first one finishes
+                    pass
+                return MG.dump_run(f1, qs)
+            got = attempt(go)
+            if got != want:
+                return {"key": "fingerprinters-interfere:split-%d" % case["split"],
+                        "what": "a fingerprinter interrupted after %d iterations while another fingerprinter object processed another molecule "
+                                "reports another result than an undisturbed run" % case["split"]}
+            return None
         if case["t"] == "derived":
             import random
             from rdkit import Chem
